@@ -1,7 +1,7 @@
 (* C14 — per-tag attribute rules are enforced exactly. *)
 From hls Require Import Base Float Lex Kinds Types Tags Line Keys Media Master.
 From hls.Generated Require Import Tables.
-From hls.Proofs Require Import Build C14 AttrOrder AttrTables KeyIff StreamIff.
+From hls.Proofs Require Import Build C14 AttrOrder AttrTables KeyIff StreamIff DateRangeIff TagIff.
 From Coq Require Import String.
 From Coq Require Import Permutation.
 Open Scope N_scope.
@@ -173,4 +173,91 @@ Example C14_stream_example :
   /\ is_ok (parse_iframe (lit "#EXT-X-I-FRAME-STREAM-INF:BANDWIDTH=7")) = false
   /\ is_ok (parse_iframe (lit "#EXT-X-I-FRAME-STREAM-INF:URI=""i"",BANDWIDTH=7,HDCP-LEVEL=TYPE-0")) = true
   /\ is_ok (parse_iframe (lit "#EXT-X-I-FRAME-STREAM-INF:URI=""i"",BANDWIDTH=7,HDCP-LEVEL=TYPE-9")) = false.
+Proof. vm_compute. repeat split. Qed.
+
+(* EXT-X-DATERANGE as an iff over ALL attribute lists: every DURATION / PLANNED-DURATION a non-negative duration, END-ON-NEXT only
+   with the value YES, client attribute names and values well formed (dr_pair_ok); an ID (kind 1); and with END-ON-NEXT (kind 10)
+   a CLASS (kind 2) and neither DURATION (kind 5) nor END-DATE (kind 4) *)
+Theorem C14_daterange_iff : forall line,
+  is_ok (parse_daterange line) =
+  match tag line pfx_ExtXDateRange with
+  | Ok rest =>
+      let l := attr_pairs rest in
+      forallb dr_pair_ok l && has_kind 1 l
+      && negb (has_kind 10 l && (negb (has_kind 2 l) || has_kind 5 l || has_kind 4 l))
+  | _ => false
+  end.
+Proof. exact daterange_accept_iff. Qed.
+Check C14_daterange_iff : forall line,
+  is_ok (parse_daterange line) =
+  match tag line pfx_ExtXDateRange with
+  | Ok rest =>
+      let l := attr_pairs rest in
+      forallb dr_pair_ok l && has_kind 1 l
+      && negb (has_kind 10 l && (negb (has_kind 2 l) || has_kind 5 l || has_kind 4 l))
+  | _ => false
+  end.
+Print Assumptions C14_daterange_iff.
+Example C14_daterange_example :
+  is_ok (parse_daterange (lit "#EXT-X-DATERANGE:ID=""d"",CLASS=""c"",END-ON-NEXT=YES")) = true
+  /\ is_ok (parse_daterange (lit "#EXT-X-DATERANGE:ID=""d"",END-ON-NEXT=YES")) = false
+  /\ is_ok (parse_daterange (lit "#EXT-X-DATERANGE:CLASS=""c"",END-ON-NEXT=YES,ID=""d"",DURATION=1")) = false
+  /\ is_ok (parse_daterange (lit "#EXT-X-DATERANGE:ID=""d"",DURATION=-1")) = false
+  /\ is_ok (parse_daterange (lit "#EXT-X-DATERANGE:ID=""d"",X-a=1")) = false
+  /\ is_ok (parse_daterange (lit "#EXT-X-DATERANGE:ID=""d"",END-ON-NEXT=NO")) = false.
+Proof. vm_compute. repeat split. Qed.
+
+(* EXT-X-SESSION-DATA over all attribute lists: a DATA-ID (kind 1) and exactly one of VALUE (kind 2) and URI (kind 3) *)
+Theorem C14_session_data_iff : forall line,
+  is_ok (parse_session_data line) =
+  match tag line pfx_ExtXSessionData with
+  | Ok rest => let l := attr_pairs rest in xs_has 1 l && xorb (xs_has 2 l) (xs_has 3 l)
+  | _ => false
+  end.
+Proof. exact session_data_accept_iff. Qed.
+Check C14_session_data_iff : forall line,
+  is_ok (parse_session_data line) =
+  match tag line pfx_ExtXSessionData with
+  | Ok rest => let l := attr_pairs rest in xs_has 1 l && xorb (xs_has 2 l) (xs_has 3 l)
+  | _ => false
+  end.
+Print Assumptions C14_session_data_iff.
+(* EXT-X-START over all attribute lists: every TIME-OFFSET a finite float, every PRECISE YES or NO, some TIME-OFFSET present *)
+Theorem C14_start_iff : forall line,
+  is_ok (parse_start line) =
+  match tag line pfx_ExtXStart with
+  | Ok rest => forallb st_pair_ok (attr_pairs rest) && existsb is_offset (attr_pairs rest)
+  | _ => false
+  end.
+Proof. exact start_accept_iff. Qed.
+Check C14_start_iff : forall line,
+  is_ok (parse_start line) =
+  match tag line pfx_ExtXStart with
+  | Ok rest => forallb st_pair_ok (attr_pairs rest) && existsb is_offset (attr_pairs rest)
+  | _ => false
+  end.
+Print Assumptions C14_start_iff.
+(* EXT-X-MAP over all attribute lists: every BYTERANGE a byte range, some URI present *)
+Theorem C14_map_iff : forall line,
+  is_ok (parse_xmap line) =
+  match tag line pfx_ExtXMap with
+  | Ok rest => forallb mp_pair_ok (attr_pairs rest) && existsb is_uri (attr_pairs rest)
+  | _ => false
+  end.
+Proof. exact map_accept_iff. Qed.
+Check C14_map_iff : forall line,
+  is_ok (parse_xmap line) =
+  match tag line pfx_ExtXMap with
+  | Ok rest => forallb mp_pair_ok (attr_pairs rest) && existsb is_uri (attr_pairs rest)
+  | _ => false
+  end.
+Print Assumptions C14_map_iff.
+Example C14_tags_iff_example :
+  is_ok (parse_session_data (lit "#EXT-X-SESSION-DATA:DATA-ID=""a"",VALUE=""v"",URI=""u""")) = false
+  /\ is_ok (parse_session_data (lit "#EXT-X-SESSION-DATA:VALUE=""v"",DATA-ID=""a"",VALUE=""w""")) = true
+  /\ is_ok (parse_start (lit "#EXT-X-START:PRECISE=YES")) = false
+  /\ is_ok (parse_start (lit "#EXT-X-START:TIME-OFFSET=1,PRECISE=MAYBE")) = false
+  /\ is_ok (parse_start (lit "#EXT-X-START:TIME-OFFSET=inf")) = false
+  /\ is_ok (parse_xmap (lit "#EXT-X-MAP:BYTERANGE=""1@2""")) = false
+  /\ is_ok (parse_xmap (lit "#EXT-X-MAP:BYTERANGE=""1@2"",URI=""i""")) = true.
 Proof. vm_compute. repeat split. Qed.
